@@ -376,6 +376,7 @@ static void containment_and_accuracy(unsigned long long& unit)
 			ld se = (gmax - gmin) / 2 * ang * (r2 - r1) / sqrtl(20000.0L);
 			if(!(fabsl(sh->value - ex) <= 6 * se)) fail("frontend", key, "estimate_outside_six_standard_errors", "estimate " + mc::dec(sh->value) + " exact " + mc::dec((double)ex) + " (6 se = " + mc::dec((double)(6 * se)) + ")");
 		}
+	// (one failure class per nested input: the key names the input, the text says in which way it failed)
 	// front ends called from inside an integrand of a front end (an integral over an integral): both levels stay inside their own
 	// rectangles; the inner integrand is a constant (integrated exactly), so the outer value is known
 	for(const char* mo : {"Monte-Carlo", "Vegas", "Miser"})
@@ -402,14 +403,15 @@ static void containment_and_accuracy(unsigned long long& unit)
 				double elapsed = std::chrono::duration<double>(std::chrono::steady_clock::now() - t_start).count();
 				mc::count("evaluations", 1);
 				mc::count("transitions", 1);
-				if(!ok && elapsed >= 15) { fail("frontend", key, "does_not_return", "the nested integration did not return within 15 s (an un-nested call of this size takes milliseconds)"); continue; }
-				if(!ok || sh->died) { fail("frontend", key, "terminated_process", "ended the process"); continue; }
-				if(sh->outside) fail("frontend", key, "argument_outside_its_own_axis_range", std::to_string(sh->outside) + " evaluations (outer or inner) with a coordinate outside the range of its own pair of limits");
-				if(sh->wrong_size) fail("frontend", key, "inner_constant_not_exact", std::to_string(sh->wrong_size) + " inner integrals of a constant differ from volume times constant");
+				if(!ok && elapsed >= 15) { fail("frontend", key, "nested_integration_fails", "does not return: no result within 15 s (an un-nested call of this size takes milliseconds)"); continue; }
+				if(!ok || sh->died) { fail("frontend", key, "nested_integration_fails", "ended the process"); continue; }
+				bool reported = false;
+				if(sh->outside) { reported = true; fail("frontend", key, "nested_integration_fails", std::to_string(sh->outside) + " evaluations (outer or inner) with a coordinate outside the range of its own pair of limits"); }
+				if(sh->wrong_size && !reported) { reported = true; fail("frontend", key, "nested_integration_fails", std::to_string(sh->wrong_size) + " inner integrals of a constant differ from volume times constant"); }
 				ld ex = (1 - expl(-1.0L)) * logl(2.5L) * 2 * (d3 ? (2 + 0.1L * 12) : 1);
 				ld vol = d3 ? 3.0L : 1.5L, fmax = d3 ? 2 * 1.7L : 2;
 				ld se = fmax * vol / 2 / sqrtl(3000.0L);
-				if(!(fabsl(sh->value - ex) <= 6 * se)) fail("frontend", key, "estimate_outside_six_standard_errors", "estimate " + mc::dec(sh->value) + " exact " + mc::dec((double)ex));
+				if(!(fabsl(sh->value - ex) <= 6 * se) && !reported) fail("frontend", key, "nested_integration_fails", "estimate outside six standard errors: " + mc::dec(sh->value) + " exact " + mc::dec((double)ex));
 			}
 	munmap(sh, sizeof(Res));
 }
